@@ -53,10 +53,12 @@ ASSUMPTIONS = [
     "deliveries cannot change the multiset of later deliveries",
     "PartitionLink.latency override and packet_loss are not used (the statement quantifies over delays that respect the minimum)",
     "deliveries later than end_time are outside the statement",
-    "no daemon or cancelled events (sequential auto-termination vs heap exhaustion would differ by definition)",
+    "daemon events are generated only together with an explicit end_time (with no end_time the sequential engine "
+    "auto-terminates on primary events while partitions run their heaps dry, which differs by definition); no cancelled events",
 ]
 EXPECTED_PROBES = ["probe.cross_event_delivered", "probe.event_on_window_boundary", "probe.idle_partition_then_cross",
-                   "probe.window_eq_min_latency", "probe.pingpong", "probe.independent_partitions", "probe.threads_mode"]
+                   "probe.window_eq_min_latency", "probe.pingpong", "probe.independent_partitions", "probe.threads_mode",
+                   "probe.daemon_events_with_end_time"]
 SHRINK_SKIP = ("n_kinds",)
 
 LAT_NS = [1_000_000, 100_000_000, 700_000_000, 1_000_000_000]
@@ -110,7 +112,8 @@ def gen(rng, tier):
                 dt = lat + rng.choice([0, 0, 1, w_ns, lat, 3 * w_ns - 1])
             else:
                 dt = rng.choice([0, 0, 1, w_ns - 1, w_ns, w_ns + 1, 2 * w_ns, w_ns // 2 + 1, 7 * w_ns])
-            out.append({"dt": max(0, dt), "to": to, "k": rng.randint(k + 1, n_kinds - 1)})
+            out.append({"dt": max(0, dt), "to": to, "k": rng.randint(k + 1, n_kinds - 1),
+                        "daemon": rng.random() < 0.25})
         return out
 
     handlers = {}
@@ -124,11 +127,18 @@ def gen(rng, tier):
                               for _ in range(rng.randint(1, 3))]
             handlers[f"{e}:{k}"] = h
     base_times = [0, w_ns - 1, w_ns, w_ns + 1, 2 * w_ns, 3 * w_ns + 1, 10 * w_ns, 25 * w_ns - 1, 40 * w_ns]
-    initial = [{"t": rng.choice(base_times), "to": rng.randrange(n_ent), "k": rng.randrange(max(1, n_kinds - 2))}
+    initial = [{"t": rng.choice(base_times), "to": rng.randrange(n_ent), "k": rng.randrange(max(1, n_kinds - 2)),
+                "daemon": rng.random() < 0.25}
                for _ in range(rng.randint(1, 10))]
     endk = rng.choice(["none", "none", "boundary", "between", "far"] + (["zero"] if rng.random() < 0.1 else []))
     end = {"none": None, "zero": 0, "boundary": rng.choice([5, 12, 30]) * w_ns, "between": rng.choice([5, 12, 30]) * w_ns + w_ns // 2 + 1,
            "far": 500 * w_ns}[endk]
+    if end is None:  # daemon work only with an explicit end_time (auto-termination is sequential-only semantics)
+        for h in handlers.values():
+            for e in h.get("emits", []) + [x for st in h.get("steps", []) for x in st.get("emits", [])]:
+                e["daemon"] = False
+        for i in initial:
+            i["daemon"] = False
     mode = "threads" if rng.random() < (0.03 if tier == "quick" else 0.08) else "serial"
     if mode == "threads":  # real threads are slow: keep the horizon short
         end = min(end, 15 * w_ns) if end is not None else 15 * w_ns
@@ -184,11 +194,13 @@ class World:
     def make(self, now, emits):
         out = []
         for e in emits:
-            out.append(Event(time=Instant(now + e["dt"]), event_type=f"k{e['k']}", target=self.entities[e["to"]]))
+            out.append(Event(time=Instant(now + e["dt"]), event_type=f"k{e['k']}", target=self.entities[e["to"]],
+                             daemon=bool(e.get("daemon", False))))
         return out
 
     def initial(self):
-        return [(i["to"], Event(time=Instant(i["t"]), event_type=f"k{i['k']}", target=self.entities[i["to"]]))
+        return [(i["to"], Event(time=Instant(i["t"]), event_type=f"k{i['k']}", target=self.entities[i["to"]],
+                                daemon=bool(i.get("daemon", False))))
                 for i in self.sc["initial"]]
 
 
@@ -230,6 +242,11 @@ def _validate(sc):
             raise InvalidScenario("bad initial")
     if not sc["initial"]:
         raise InvalidScenario("no initial events")
+    if sc.get("end") is None:
+        allem = [e for h in sc["handlers"].values()
+                 for e in h.get("emits", []) + [x for st in h.get("steps", []) for x in st.get("emits", [])]]
+        if any(e.get("daemon") for e in allem + sc["initial"]):
+            raise InvalidScenario("daemon events need an explicit end_time in this model")
 
 
 # --------------------------------------------------------------------------
@@ -526,6 +543,7 @@ def run(sc):
         "probe.pingpong": int(any(f"{k.split('>')[1]}>{k.split('>')[0]}" in sc["links"] for k in sc["links"]) and cross >= 2),
         "probe.independent_partitions": int(not sc["links"]),
         "probe.threads_mode": int(sc.get("mode") == "threads"),
+        "probe.daemon_events_with_end_time": int(end is not None and any(i.get("daemon") for i in sc["initial"])),
         "sched.task_orders_or_baton_switches": switches,
         "windows": total_windows,
         "cross_events": cross,
